@@ -138,6 +138,13 @@ func (h *Hub) ServeHTTP(w http.ResponseWriter, r *http.Request) {
 	h.registerConnection(shipConnection)
 	h.muxConKeep.Unlock()
 
+	// the hub may have been shut down while this connection was being established.
+	// Shutdown could not find the connection then, so it has to be ended here
+	if h.checkHasShutdown() {
+		shipConnection.CloseConnection(false, 0, "")
+		return
+	}
+
 	shipConnection.Run()
 }
 
@@ -233,6 +240,12 @@ func (h *Hub) connectFoundService(remoteService *api.ServiceDetails, host, port,
 	// established. Those calls could not find the connection then, so it has to be ended here
 	if !remoteService.Trusted() {
 		shipConnection.CloseConnection(false, 4500, "User close")
+		return nil
+	}
+
+	// the same goes for a shutdown of the hub
+	if h.checkHasShutdown() {
+		shipConnection.CloseConnection(false, 0, "")
 		return nil
 	}
 
